@@ -14,7 +14,10 @@ def readback : Nat → Heap → Val → Tree
   | _, _, .null => .null
   | _, _, .int n => .int n
   | 0, _, .ref _ => .null
-  | f + 1, h, .ref id => .list ((payloadOf h id).map (readback f h))
+  | f + 1, h, .ref id =>
+    match keysOf h id with
+    | none => .list ((payloadOf h id).map (readback f h))
+    | some ks => .dict ks ((payloadOf h id).map (readback f h))
 
 /-- fuel used by the driver: one more than the number of allocations (the depth of an acyclic heap
 cannot exceed the number of allocations) -/
@@ -26,15 +29,46 @@ end Noulith.RcHeap
 
 namespace Noulith.Store
 
+/-- `k1:v1,k2:v2,…` with the entries sorted by the rendered key text (as `vharness::canon` does) -/
+def renderEntries (ks : List Int) (vs : List String) : String :=
+  let es := (ks.map toString).zip vs
+  let sorted := es.mergeSort (fun a b => decide (a.1 ≤ b.1))
+  joinWith "," (sorted.map fun e => e.1 ++ ":" ++ e.2)
+
 mutual
 def Tree.render : Tree → String
   | .null => "null"
   | .int n => toString n
   | .list ts => "[" ++ renderList ts ++ "]"
+  | .dict ks vs => "{" ++ renderEntries ks (renderEach vs) ++ "}"
 def renderList : List Tree → String
   | [] => ""
   | [t] => t.render
   | t :: t2 :: ts => t.render ++ "," ++ renderList (t2 :: ts)
+def renderEach : List Tree → List String
+  | [] => []
+  | t :: ts => t.render :: renderEach ts
+end
+
+/-- rendering with dict entries in stored (insertion) order — kernel-reducible, used by the `example`s -/
+def rawEntries : List Int → List String → String
+  | k :: k2 :: ks, v :: v2 :: vs => toString k ++ ":" ++ v ++ "," ++ rawEntries (k2 :: ks) (v2 :: vs)
+  | k :: _, v :: _ => toString k ++ ":" ++ v
+  | _, _ => ""
+
+mutual
+def Tree.renderRaw : Tree → String
+  | .null => "null"
+  | .int n => toString n
+  | .list ts => "[" ++ rawList ts ++ "]"
+  | .dict ks vs => "{" ++ rawEntries ks (rawEach vs) ++ "}"
+def rawList : List Tree → String
+  | [] => ""
+  | [t] => t.renderRaw
+  | t :: t2 :: ts => t.renderRaw ++ "," ++ rawList (t2 :: ts)
+def rawEach : List Tree → List String
+  | [] => []
+  | t :: ts => t.renderRaw :: rawEach ts
 end
 
 end Noulith.Store
